@@ -70,7 +70,7 @@ namespace
   std::string cur_op;
   long mismatches_this_behaviour = 0;
 
-  void mismatch(const std::string &check, const std::string &msg, long at = -1,
+  void mism(const std::string &check, const std::string &msg, long at = -1,
                 const std::string &got = "", const std::string &want = "")
   {
     ++stats.mismatches;
@@ -208,7 +208,7 @@ namespace
             throw HarnessError("unknown api " + H.api);
           H.alive = true;
           if (expect == "throw")
-            mismatch("create", "construction succeeded but the specification says the document must be rejected");
+            mism("create", "construction succeeded but the specification says the document must be rejected");
         }
       catch (const HarnessError &)
         {
@@ -219,14 +219,14 @@ namespace
           ++stats.threw_create;
           H.alive = false;
           if (expect == "ok")
-            mismatch("create", std::string("construction threw: ") + e.what());
+            mism("create", std::string("construction threw: ") + e.what());
           else if (std::string(e.what()).empty())
-            mismatch("create", "exception without a message");
+            mism("create", "exception without a message");
         }
       catch (...)
         {
           H.alive = false;
-          mismatch("create", "construction threw something that is not a std::exception");
+          mism("create", "construction threw something that is not a std::exception");
         }
 #ifdef GWB_VERIF
       WorldBuilder::Verif::disable_culling() = false;
@@ -289,7 +289,7 @@ namespace
                   if (dim == 2) properties_2d(H.cptr, p[0], p[1], depth, pp, static_cast<unsigned int>(props.size()), out.data());
                   else properties_3d(H.cptr, p[0], p[1], p[2], depth, pp, static_cast<unsigned int>(props.size()), out.data());
                   for (unsigned int i = n; i < n + 4; ++i)
-                    if (out[i] != -7.25e300) mismatch("c-overrun", "C API wrote past the announced output size", i);
+                    if (out[i] != -7.25e300) mism("c-overrun", "C API wrote past the announced output size", i);
                   out.resize(n);
                 }
               else if (via == "temperature")
@@ -334,7 +334,7 @@ namespace
       catch (...)
         {
           what = "<<not a std::exception>>";
-          mismatch("query", "query threw something that is not a std::exception");
+          mism("query", "query threw something that is not a std::exception");
           return false;
         }
     }
@@ -347,11 +347,11 @@ namespace
           const std::string k = e["k"].GetString();
           const long at = e.HasMember("at") ? e["at"].GetInt64() : 0;
           ++stats.checks; ++stats.by_check[k];
-          if (k == "throws") { mismatch(k, "query returned but the specification says it must be refused"); continue; }
+          if (k == "throws") { mism(k, "query returned but the specification says it must be refused"); continue; }
           if (k == "len")
             {
               if (static_cast<long>(out.size()) != e["n"].GetInt64())
-                mismatch(k, "reply length", -1, std::to_string(out.size()), std::to_string(e["n"].GetInt64()));
+                mism(k, "reply length", -1, std::to_string(out.size()), std::to_string(e["n"].GetInt64()));
               continue;
             }
           if (k == "size")   // reply length equals the announced size
@@ -361,7 +361,7 @@ namespace
                 {
                   const unsigned int n = w->properties_output_size(get_props(s["props"]));
                   if (n != out.size())
-                    mismatch(k, "reply length differs from properties_output_size", -1, std::to_string(out.size()), std::to_string(n));
+                    mism(k, "reply length differs from properties_output_size", -1, std::to_string(out.size()), std::to_string(n));
                 }
               continue;
             }
@@ -370,7 +370,7 @@ namespace
               for (size_t i = 0; i < out.size(); ++i)
                 {
                   ++stats.values;
-                  if (!std::isfinite(out[i])) { mismatch(k, "non-finite value returned", static_cast<long>(i), fmt(out[i]), "finite"); break; }
+                  if (!std::isfinite(out[i])) { mism(k, "non-finite value returned", static_cast<long>(i), fmt(out[i]), "finite"); break; }
                 }
               continue;
             }
@@ -378,12 +378,12 @@ namespace
             {
               const std::string ref = pre + e["ref"].GetString();
               const std::vector<double> *r = lookup(ref);
-              if (!r) { mismatch(k, "reference '" + ref + "' not recorded (harness)"); continue; }
+              if (!r) { mism(k, "reference '" + ref + "' not recorded (harness)"); continue; }
               const long refat = e.HasMember("refat") ? e["refat"].GetInt64() : 0;
               const long n = e.HasMember("n") ? e["n"].GetInt64() : static_cast<long>(r->size()) - refat;
               if (at + n > static_cast<long>(out.size()) || refat + n > static_cast<long>(r->size()))
                 {
-                  mismatch(k, "block [" + std::to_string(at) + "," + std::to_string(at+n) + ") does not fit the reply of length "
+                  mism(k, "block [" + std::to_string(at) + "," + std::to_string(at+n) + ") does not fit the reply of length "
                            + std::to_string(out.size()) + " (ref " + ref + " length " + std::to_string(r->size()) + ")", at);
                   continue;
                 }
@@ -392,7 +392,7 @@ namespace
                   ++stats.values;
                   if (bits(out[at+i]) != bits((*r)[refat+i]))
                     {
-                      mismatch(k, "block differs from reference " + ref, at + i, fmt(out[at+i]), fmt((*r)[refat+i]));
+                      mism(k, "block differs from reference " + ref, at + i, fmt(out[at+i]), fmt((*r)[refat+i]));
                       break;
                     }
                 }
@@ -411,7 +411,7 @@ namespace
                 }
               ++stats.values;
               if (at >= static_cast<long>(out.size()) || out[at] != want)
-                mismatch(k, std::string("tag is not that of ") + (e.HasMember("name") && e["name"].IsString() ? e["name"].GetString() : "<background>"),
+                mism(k, std::string("tag is not that of ") + (e.HasMember("name") && e["name"].IsString() ? e["name"].GetString() : "<background>"),
                          at, at < static_cast<long>(out.size()) ? fmt(out[at]) : "missing", fmt(want));
               continue;
             }
@@ -419,13 +419,13 @@ namespace
             {
               const std::vector<double> want = eval_vec(e["v"]);
               const double rel = e.HasMember("rel") ? eval(e["rel"]) : 0., abs_ = e.HasMember("abs") ? eval(e["abs"]) : 0.;
-              if (at + want.size() > out.size()) { mismatch(k, "expected values do not fit the reply", at); continue; }
+              if (at + want.size() > out.size()) { mism(k, "expected values do not fit the reply", at); continue; }
               for (size_t i = 0; i < want.size(); ++i)
                 {
                   ++stats.values;
                   const double g = out[at+i], w = want[i];
                   const bool ok = (k == "eq") ? (g == w) : (std::fabs(g - w) <= abs_ + rel *std::max(std::fabs(g), std::fabs(w)));
-                  if (!ok || std::isnan(g)) { mismatch(k, "value differs from the specification's", at + static_cast<long>(i), fmt(g), fmt(w)); break; }
+                  if (!ok || std::isnan(g)) { mism(k, "value differs from the specification's", at + static_cast<long>(i), fmt(g), fmt(w)); break; }
                 }
               continue;
             }
@@ -433,14 +433,14 @@ namespace
             {
               const std::string ref = pre + e["ref"].GetString();
               const std::vector<double> *r = lookup(ref);
-              if (!r) { mismatch(k, "reference '" + ref + "' not recorded (harness)"); continue; }
+              if (!r) { mism(k, "reference '" + ref + "' not recorded (harness)"); continue; }
               const long refat = e.HasMember("refat") ? e["refat"].GetInt64() : 0;
               const double rel = e.HasMember("rel") ? eval(e["rel"]) : 0., abs_ = e.HasMember("abs") ? eval(e["abs"]) : 0.;
               std::vector<double> want;
               if (k == "near")
                 {
                   const long n = e.HasMember("n") ? e["n"].GetInt64() : static_cast<long>(r->size()) - refat;
-                  if (refat + n > static_cast<long>(r->size())) { mismatch(k, "reference block does not fit", at); continue; }
+                  if (refat + n > static_cast<long>(r->size())) { mism(k, "reference block does not fit", at); continue; }
                   want.assign(r->begin() + refat, r->begin() + refat + n);
                 }
               else
@@ -454,13 +454,13 @@ namespace
                       }
                     want.push_back(acc);
                   }
-              if (at + want.size() > out.size()) { mismatch(k, "expected values do not fit the reply", at); continue; }
+              if (at + want.size() > out.size()) { mism(k, "expected values do not fit the reply", at); continue; }
               for (size_t i = 0; i < want.size(); ++i)
                 {
                   ++stats.values;
                   const double g = out[at+i], w = want[i];
                   if (!(std::fabs(g - w) <= abs_ + rel *std::max(std::fabs(g), std::fabs(w))))
-                    { mismatch(k, "value differs from what the specification derives from " + ref, at + static_cast<long>(i), fmt(g), fmt(w)); break; }
+                    { mism(k, "value differs from what the specification derives from " + ref, at + static_cast<long>(i), fmt(g), fmt(w)); break; }
                 }
               continue;
             }
@@ -470,23 +470,23 @@ namespace
               const double slack = (e.HasMember("slack") ? eval(e["slack"]) : 1e-9) * std::max(std::fabs(lo), std::fabs(hi));
               ++stats.values;
               if (at >= static_cast<long>(out.size()) || !(out[at] >= std::min(lo,hi) - slack && out[at] <= std::max(lo,hi) + slack))
-                mismatch(k, "value outside the envelope", at, at < static_cast<long>(out.size()) ? fmt(out[at]) : "missing", fmt(lo) + ".." + fmt(hi));
+                mism(k, "value outside the envelope", at, at < static_cast<long>(out.size()) ? fmt(out[at]) : "missing", fmt(lo) + ".." + fmt(hi));
               continue;
             }
           if (k == "differs")   // at least one value differs from the reference (e.g. different seeds)
             {
               const std::vector<double> *r = lookup(e["ref"].GetString());
-              if (!r) { mismatch(k, "reference not recorded (harness)"); continue; }
+              if (!r) { mism(k, "reference not recorded (harness)"); continue; }
               bool same = r->size() == out.size();
               for (size_t i = 0; same && i < out.size(); ++i) same = bits(out[i]) == bits((*r)[i]);
-              if (same) mismatch(k, std::string("reply identical to ") + e["ref"].GetString() + " although the specification says it differs");
+              if (same) mism(k, std::string("reply identical to ") + e["ref"].GetString() + " although the specification says it differs");
               continue;
             }
           if (k == "rotations")   // every grain of a grains block: orthonormal, det +1; sizes per mode
             {
               const long n = e["n"].GetInt64();
               const double tol = e.HasMember("tol") ? eval(e["tol"]) : 1e-12;
-              if (at + 10*n > static_cast<long>(out.size())) { mismatch(k, "grains block does not fit", at); continue; }
+              if (at + 10*n > static_cast<long>(out.size())) { mism(k, "grains block does not fit", at); continue; }
               for (long g = 0; g < n; ++g)
                 {
                   const double *R = &out[at + n + 9*g];
@@ -501,19 +501,19 @@ namespace
                   const double det = R[0]*(R[4]*R[8]-R[5]*R[7]) - R[1]*(R[3]*R[8]-R[5]*R[6]) + R[2]*(R[3]*R[7]-R[4]*R[6]);
                   stats.values += 9;
                   if (!(worst <= tol) || !(std::fabs(det - 1.) <= tol))
-                    { mismatch(k, "grain orientation is not a proper rotation", at + n + 9*g, "orth.err=" + fmt(worst) + " det=" + fmt(det), "orthonormal, det=+1"); break; }
+                    { mism(k, "grain orientation is not a proper rotation", at + n + 9*g, "orth.err=" + fmt(worst) + " det=" + fmt(det), "orthonormal, det=+1"); break; }
                 }
               if (e.HasMember("sizes_sum"))
                 {
                   double sum = 0;
                   for (long g = 0; g < n; ++g) sum += out[at+g];
                   if (!(std::fabs(sum - eval(e["sizes_sum"])) <= 1e-12 * std::max<double>(1., static_cast<double>(n))))
-                    mismatch(k, "grain sizes do not sum to the specified total", at, fmt(sum), fmt(eval(e["sizes_sum"])));
+                    mism(k, "grain sizes do not sum to the specified total", at, fmt(sum), fmt(eval(e["sizes_sum"])));
                 }
               if (e.HasMember("sizes_in"))
                 for (long g = 0; g < n; ++g)
                   if (!(out[at+g] >= eval(e["sizes_in"][0]) && out[at+g] <= eval(e["sizes_in"][1])))
-                    { mismatch(k, "grain size outside its range", at+g, fmt(out[at+g])); break; }
+                    { mism(k, "grain size outside its range", at+g, fmt(out[at+g])); break; }
               continue;
             }
           throw HarnessError("unknown expectation kind " + k);
@@ -534,8 +534,8 @@ namespace
           if (std::string(e["k"].GetString()) == "throws") expect_throw = true;
       if (!ok)
         {
-          if (!expect_throw && !may_throw) mismatch("query", "query threw: " + what);
-          else if (what.empty()) mismatch("query", "exception without a message");
+          if (!expect_throw && !may_throw) mism("query", "query threw: " + what);
+          else if (what.empty()) mism("query", "exception without a message");
           if (expect_throw) { ++stats.checks; ++stats.by_check["throws"]; }
           return;
         }
@@ -614,7 +614,7 @@ namespace
           catch (const std::exception &e)
             {
               ++stats.threw_query;
-              mismatch("query", std::string("query threw: ") + e.what());
+              mism("query", std::string("query threw: ") + e.what());
               continue;
             }
           (void) off;
@@ -664,7 +664,7 @@ namespace
               else
                 ok = at < static_cast<long>(out.size()) && out[at] == want;
               if (!ok)
-                mismatch(k, "row [" + fmt(c[0]) + "," + fmt(c[1]) + "," + fmt(c[2]) + "," + fmt(c[3]) + "]: value differs from the specification's",
+                mism(k, "row [" + fmt(c[0]) + "," + fmt(c[1]) + "," + fmt(c[2]) + "," + fmt(c[3]) + "]: value differs from the specification's",
                          at, at < static_cast<long>(out.size()) ? fmt(out[at]) : "missing", fmt(want));
             }
         }
@@ -687,7 +687,7 @@ namespace
       else { ++stats.skipped_steps; return; }
       ++stats.checks; ++stats.by_check["announced"];
       if (n != s["n"].GetUint())
-        mismatch("announced", "announced output size", -1, std::to_string(n), std::to_string(s["n"].GetUint()));
+        mism("announced", "announced output size", -1, std::to_string(n), std::to_string(s["n"].GetUint()));
     }
 
     // distance_to_plane: expect "from"/"along" as tol checks
@@ -707,7 +707,7 @@ namespace
       catch (const std::exception &e)
         {
           if (!(s.HasMember("may_throw") && s["may_throw"].GetBool()))
-            mismatch("query", std::string("distance_to_plane threw: ") + e.what());
+            mism("query", std::string("distance_to_plane threw: ") + e.what());
         }
     }
 
@@ -722,7 +722,7 @@ namespace
       shadow.discard(static_cast<unsigned long long>(words));
       ++stats.checks; ++stats.by_check["engine"];
       if (!(H.world()->get_random_number_engine() == shadow))
-        mismatch("engine", "random engine is not at seed " + fmt(eval(s["seed"])) + " + " + std::to_string(words) + " words");
+        mism("engine", "random engine is not at seed " + fmt(eval(s["seed"])) + " + " + std::to_string(words) + " words");
     }
 
     void kernel(const Value &s);
@@ -747,7 +747,7 @@ namespace
               const bool ex = stat(s["path"].GetString(), &st) == 0;
               ++stats.checks; ++stats.by_check["exists"];
               if (ex != s["want"].GetBool())
-                mismatch("exists", std::string("file ") + s["path"].GetString() + (ex ? " exists" : " does not exist"), -1, ex ? "exists" : "missing", s["want"].GetBool() ? "exists" : "missing");
+                mism("exists", std::string("file ") + s["path"].GetString() + (ex ? " exists" : " does not exist"), -1, ex ? "exists" : "missing", s["want"].GetBool() ? "exists" : "missing");
               if (ex && s.HasMember("remove") && s["remove"].GetBool()) unlink(s["path"].GetString());
             }
           else if (cur_op == "release") do_release(s);
